@@ -66,6 +66,8 @@ typedef struct {
 #define TWAIT { O_TWAIT, 0 }
 #define A(kind, ...) { kind, { __VA_ARGS__ } }
 
+/* NOTE: registry/C09.json names configs 0-3 by index for its P=3 runs; keep
+ * them first.  Quick configs are ordered cheap first. */
 static const cfg_t cfgs[] = {
     /* ------------------------------------------------------------ quick */
     { "ev8 set||wait||wait: X.set | U0.wait | U1.wait", 1, EVENTUAL, 8, 0, 3,
@@ -103,12 +105,12 @@ static const cfg_t cfgs[] = {
       { A(K_U1, WAIT), A(K_X, SET(1)), A(K_M, TEST) } },
     { "ev8 T1.wait(fails),set | X.wait | U0.wait", 0, EVENTUAL, 8, 0, 3,
       { A(K_T1, TWAIT, SET(1)), A(K_X, WAIT), A(K_U0, WAIT) } },
-    { "ev8 epochs: X.wait,reset,wait | U1.set,(gate)set | X.wait", 0, EVENTUAL,
+    { "ev8 epochs: X.wait,reset,wait | U1.set,(gate)set | U1.wait", 0, EVENTUAL,
       8, 0, 3,
       { A(K_X, WAIT, RESET, FLAG(0), WAIT), A(K_U1, SET(1), GATE(0), SET(2)),
-        A(K_X, WAIT) } },
-    { "ev8 U1.wait | X.set | X.set | M.wait", 0, EVENTUAL, 8, 0, 4,
-      { A(K_U1, WAIT), A(K_X, SET(1)), A(K_X, SET(2)), A(K_M, WAIT) } },
+        A(K_U1, WAIT) } },
+    { "ev8 U1.wait | X.set | X.set", 0, EVENTUAL, 8, 0, 3,
+      { A(K_U1, WAIT), A(K_X, SET(1)), A(K_X, SET(2)) } },
     { "fut2 (no cb): X.set | U1.set | U0.wait | M.test", 0, FUTURE, 2, 0, 4,
       { A(K_X, SET(1)), A(K_U1, SET(2)), A(K_U0, WAIT), A(K_M, TEST) } },
     { "fut2+cb epochs: U1.wait,reset,wait | X.set,(gate)set | U0.set,(gate)set",
